@@ -189,6 +189,11 @@ def decisions_facts():
 def main():
     try:
         p = patching_facts(); d = dso_facts(); m = decisions_facts()
+        if '--print' in sys.argv:      # used by the check: facts of $NBDIME_REPO as JSON, nothing written
+            import json
+            print(json.dumps({'copy_untouched': p['untouched'], 'copy_diffvals': p['diffval'],
+                              'dso_restore_protected': d['protected'], 'apply_copies_base': m['copies_base']}))
+            return
         text = ('(* GENERATED by tools/gen/gen_c13facts.py from nbdime/patching.py, diffing/notebooks.py,\n'
                 '   merging/decisions.py -- do not edit. *)\n'
                 'From NB Require Import Diff.Store.\n\n'
